@@ -204,6 +204,7 @@ func renderSSA(d ssaDoc, r ssaRendering) []byte {
 	}
 	if r.Junk {
 		emit("this line has no colon and must be ignored")
+		emit("[not a section] but a remark that starts with a bracketed word")
 		emit("Unknown Key: ignored value")
 	}
 	emit("")
@@ -301,6 +302,8 @@ func renderSSA(d ssaDoc, r ssaRendering) []byte {
 		emit(row("Dialogue", e))
 		if r.Junk && i == 0 {
 			emit("junk line between events")
+			emit("[todo] re-time the next line")
+			emit("[half a header")
 		}
 	}
 	if r.EventsFirst {
